@@ -36,19 +36,20 @@ class FragmentSpreadsMustNotFormCycles(June2018ReleaseValidationRule):
     def _validate_fragment(self, fragments, fragment, spreaded):
         for selected in fragment.selection_set.selections:
             if isinstance(selected, FragmentSpreadNode):
-                if selected.name.value not in spreaded:
-                    spreaded.append(selected.name.value)
-
-                    fragment = find_nodes_by_name(
-                        fragments, selected.name.value
-                    )
-                    if not fragment:
-                        continue  # Handled by another validator
-                    fragment = fragment[0]
-
-                    self._validate_fragment(fragments, fragment, spreaded)
-                else:
+                if selected.name.value in spreaded:
                     raise CycleException(fragments, self._extensions)
+
+                spreaded_fragment = find_nodes_by_name(
+                    fragments, selected.name.value
+                )
+                if not spreaded_fragment:
+                    continue  # Handled by another validator
+
+                spreaded.append(selected.name.value)
+                self._validate_fragment(
+                    fragments, spreaded_fragment[0], spreaded
+                )
+                spreaded.pop()
         return
 
     def validate(self, fragments, **_):
